@@ -233,6 +233,25 @@ def wide_dtype(spec, draw, st):
     return "wide-dtype/%s" % code
 
 
+CUSTOM_NAMES = ["alpha_op", "zeta_op", "MyCustomOp", "TFLite_Detection_PostProcess", "Foo", "bar", "Qux", "op_17", "Mfcc", "AudioSpectrogram", "x", "FlexAddV2"]
+
+
+def custom_tail(spec, draw, st, n=None):
+    """2-4 third-party custom operators with different custom codes (same version) chained behind the first model output: what is hashed (strings) differs per operator"""
+    if not spec["outputs"]:
+        return None
+    cur = spec["outputs"][0]
+    names = draw(st.permutations(CUSTOM_NAMES))[: n or draw(st.integers(2, 4))]
+    for k, nm in enumerate(names):
+        T = spec["tensors"][cur]
+        spec["tensors"].append(dict(name="custom_out_%d" % k, shape=list(T["shape"]), dtype=T["dtype"], scale=T.get("scale"), zp=T.get("zp"), data=None))
+        o = len(spec["tensors"]) - 1
+        spec["ops"].append(dict(code="CUSTOM", inputs=[cur], outputs=[o], opts=None, version=1, custom_code=nm, custom_options=draw(st.binary(min_size=0, max_size=8)).hex()))
+        cur = o
+    spec["outputs"] = [cur] + list(spec["outputs"][1:])
+    return "custom-tail/%d" % len(names)
+
+
 TRANSFORMS = [strip_const, cut_input, empty_const, variable, axis_rank1, no_quant, odd_quant, shape_signature, dead_op, dup_names, self_binary, output_is_input, wide_dtype]
 
 
